@@ -40,19 +40,20 @@ Record dma := mkDma {
   g_sent : list sub;                 (* sub-requests created *)
   g_ans : list N;                    (* sub-request IDs answered (removed from pendingReqs) *)
   g_done : list (nat * copy);        (* completions queued: (position in g_acc, message) *)
-  g_retr : list copy                 (* completions retrieved by the environment *)
+  g_retr : list copy;                (* completions retrieved by the environment *)
+  g_lay : list (list (N * N * N))    (* per accepted command: (sub-request ID, offset in the buffer, size) *)
 }.
 
 #[export] Instance eta_dma : Settable _ := settable! mkDma
   <lg; maxreq; processing; to_mem; to_cp; pending; cp_in; cp_out; mem_in; mem_out;
-   next_id; crashed; g_deliv; g_acc; g_sent; g_ans; g_done; g_retr>.
+   next_id; crashed; g_deliv; g_acc; g_sent; g_ans; g_done; g_retr; g_lay>.
 
 Definition CP_CAP : N := 40960000.   (* sim.NewPort(dma, 40960000, 40960000, ToCP) *)
 Definition MEM_CAP : N := 64.        (* sim.NewPort(dma, 64, 64, ToMem) *)
 Definition ID_BASE : N := 1000000.
 
 Definition init (l : N) (mx : nat) : dma :=
-  mkDma l mx [] [] [] [] [] [] [] [] ID_BASE false [] [] [] [] [] [].
+  mkDma l mx [] [] [] [] [] [] [] [] ID_BASE false [] [] [] [] [] [] [].
 
 Definition room {A} (cap : N) (b : list A) : bool := N.of_nat (length b) <? cap.
 
@@ -80,30 +81,6 @@ Fixpoint mk_subs (c : copy) (id : N) (l : list piece) : list sub :=
   end.
 
 Definition split_lines (lg addr n : N) : res := split (look_unit lg) addr n.
-
-Definition parse_from_cp (s : dma) : dma * bool :=
-  if Nat.leb (maxreq s) (length (processing s)) then (s, false) else
-  match cp_in s with
-  | [] => (s, false)
-  | c :: rest =>
-    match c_kind c with
-    | COther => (s <| crashed := true |>, false)
-    | _ =>
-      match split_lines (lg s) (c_addr c) (len (c_data c)) with
-      | Ok l =>
-        let subs := mk_subs c (next_id s) l in
-        let ids := map s_id subs in
-        (s <| cp_in := rest |>
-           <| processing := processing s ++ [mkColl c ids (N.of_nat (length ids)) (length (g_acc s))] |>
-           <| to_mem := to_mem s ++ subs |>
-           <| pending := pending s ++ subs |>
-           <| next_id := next_id s + N.of_nat (length subs) |>
-           <| g_acc := g_acc s ++ [(c, ids)] |>
-           <| g_sent := g_sent s ++ subs |>, true)
-      | _ => (s <| crashed := true |>, false)
-      end
-    end
-  end.
 
 (** removeReqFromPendingReqList: the last entry with the ID is returned, all
     entries with the ID are removed. *)
@@ -158,6 +135,41 @@ Definition finish (s : dma) (rc : coll) : dma :=
     <| g_done := g_done s ++ [(k_seq rc, k_sup rc)] |>.
 
 Definition crash (s : dma) : dma * bool := (s <| crashed := true |>, false).
+
+(** parseFromCP.  A command without sub-requests (zero bytes) is answered at
+    once: its collection is removed again and the completion queued. *)
+Definition accept_subs (s : dma) (c : copy) (l : list piece) : list sub := mk_subs c (next_id s) l.
+Definition accept_coll (s : dma) (c : copy) (l : list piece) : coll :=
+  let ids := map s_id (accept_subs s c l) in
+  mkColl c ids (N.of_nat (length ids)) (length (g_acc s)).
+Definition accept_state (s : dma) (c : copy) (rest : list copy) (l : list piece) : dma :=
+  let subs := accept_subs s c l in
+  s <| cp_in := rest |>
+    <| processing := processing s ++ [accept_coll s c l] |>
+    <| to_mem := to_mem s ++ subs |>
+    <| pending := pending s ++ subs |>
+    <| next_id := next_id s + N.of_nat (length subs) |>
+    <| g_acc := g_acc s ++ [(c, map s_id subs)] |>
+    <| g_sent := g_sent s ++ subs |>
+    <| g_lay := g_lay s ++ [map (fun q => (s_id q, s_addr q - c_addr c, s_size q)) subs] |>.
+
+Definition parse_from_cp (s : dma) : dma * bool :=
+  if Nat.leb (maxreq s) (length (processing s)) then (s, false) else
+  match cp_in s with
+  | [] => (s, false)
+  | c :: rest =>
+    match c_kind c with
+    | COther => (s <| crashed := true |>, false)
+    | _ =>
+      match split_lines (lg s) (c_addr c) (len (c_data c)) with
+      | Ok l =>
+        if k_count (accept_coll s c l) =? 0
+        then (finish (accept_state s c rest l) (accept_coll s c l), true)
+        else (accept_state s c rest l, true)
+      | _ => (s <| crashed := true |>, false)
+      end
+    end
+  end.
 
 (** The part common to processDataReadyRsp and processDoneRsp: the request
     leaves pendingReqs and every collection that lists it counts down. *)
